@@ -343,10 +343,17 @@ func run(sc scenario) (out runOut) {
 	// standalone waiters: with every permit held, callers of AcquirePermit / AcquirePermitWithMaxWait wait; each is
 	// cancelled while it waits and must come back without a permit; afterwards exactly Max permits are available again
 	if sc.Waiters > 0 {
-		for i := 0; i < sc.Max; i++ {
-			if !bh.TryAcquirePermit() {
+		// (an attempt a hedge abandoned may still pass through the bulkhead for a moment: a permit it holds comes back)
+		takeUntil := harness.Wait(10 * time.Second)
+		for i := 0; i < sc.Max; {
+			if bh.TryAcquirePermit() {
+				i++
+				continue
+			}
+			if takeUntil.Expired() {
 				return fail("permit-count", "only %d of %d permits could be taken for the standalone waiter phase", i, sc.Max)
 			}
+			time.Sleep(200 * time.Microsecond)
 		}
 		type wres struct {
 			i   int
@@ -388,12 +395,19 @@ func run(sc scenario) (out runOut) {
 		for i := 0; i < sc.Max; i++ {
 			bh.ReleasePermit()
 		}
-		got = 0
-		for got <= sc.Max && bh.TryAcquirePermit() {
-			got++
-		}
-		for i := 0; i < got; i++ {
-			bh.ReleasePermit()
+		againUntil := harness.Wait(10 * time.Second)
+		for {
+			got = 0
+			for got <= sc.Max && bh.TryAcquirePermit() {
+				got++
+			}
+			for i := 0; i < got; i++ {
+				bh.ReleasePermit()
+			}
+			if got == sc.Max || againUntil.Expired() {
+				break
+			}
+			time.Sleep(200 * time.Microsecond)
 		}
 		if got != sc.Max {
 			return fail("permit-count", "after the cancelled standalone waiters %d permits could be acquired, the bulkhead has %d", got, sc.Max)
